@@ -49,11 +49,11 @@ let run_model (len : int) (toks : string list) : string =
   | r :: rest ->
       let run = n_of_string r in
       let banks = List.map parse_bank (List.filter (fun t -> t <> "") rest) in
-      let o1 = obs_res (try_from_banks_model Checked run banks (fun l -> l)) in
+      let o1 = obs_res (try_from_banks_model64 Checked run banks (fun l -> l)) in
       if len > 16000 then o1
       else
-        let o2 = obs_res (try_from_banks_model Checked run banks List.rev) in
-        let o3 = obs_res (try_from_banks_model Wrapping run banks (fun l -> l)) in
+        let o2 = obs_res (try_from_banks_model64 Checked run banks List.rev) in
+        let o3 = obs_res (try_from_banks_model64 Wrapping run banks (fun l -> l)) in
         if o1 <> o2 then "order-dependent [" ^ o1 ^ "] [" ^ o2 ^ "]"
         else if o1 <> o3 then "mode-dependent [" ^ o1 ^ "] [" ^ o3 ^ "]"
         else o1
@@ -79,8 +79,8 @@ let summarise (toks : string list) : string =
 let handle (line : string) : string =
   match split ' ' line with
   | "e2e" :: rest -> run_model (String.length line) rest
-  | [ "calw"; r ] -> summarise (List.map cal_tok (wire_cal_row (n_of_string r)))
-  | [ "calp"; r; c ] -> summarise (List.map cal_tok (pad_cal_col (n_of_string r) (n_of_string c)))
+  | [ "calw"; r ] -> summarise (List.map cal_tok (wire_cal_row64 (n_of_string r)))
+  | [ "calp"; r; c ] -> summarise (List.map cal_tok (pad_cal_col64 (n_of_string r) (n_of_string c)))
   | tag :: _ when String.length tag >= 3 && String.sub tag 0 3 = "rel" -> "holds"
   | _ -> "unknown-case"
 
